@@ -4,7 +4,10 @@
                                             add_penalty / add_diagonal / solve / direct_solve
      pybaselines/two_d/whittaker.py       : asls-type methods, iasls, drpls, aspls
    A sparse matrix is modelled by its dense index function on row-major raveled indices
-   (p = i * N + j for the data point (i, j) of an M x N grid).  Library operations are modelled by
+   (p = i * N + j for the data point (i, j) of an M x N grid).  This is the vec convention of C06/Vec.v:
+   vec = ROW-MAJOR flatten of the LOGICAL (M, N) array of values, independent of the strides of the ndarray that
+   holds them; the weights / data / alpha vectors of this model are vec of the user's logical arrays, and the
+   reshape of the outputs is unvec (C06/VecProofs.v; the source sites are pinned by gen/GenC06Vec.v).  Library operations are modelled by
    their contracts: scipy.sparse.kron (block structure through div / mod), dia_matrix (offset k holds
    A[j - k, j] in column j), +, scalar *, diag(v) @ A (row scaling), setdiag, diagonal, A @ y.
    Models only; proofs in C06/Proofs2D.v. *)
